@@ -475,6 +475,7 @@ pub fn exec_line(line: &str, sess: &mut Session, uni: &mut Option<Vec<BoardMove>
             "g.hist" => sess.op_hist(),
             "g.pgn" => sess.op_pgn(),
             "g.tag" => sess.op_tag(&text(1)?, &text(2)?),
+            "g.probe" => sess.op_probe(&board(1)?),
             "g.frompgn" => obs_frompgn(&text(1)?).0,
             "rx" => obs_rx(&pgn_patterns(), &text(1)?),
             "tbl" => obs_tbl(tok.get(1).ok_or_else(bad)?),
